@@ -161,7 +161,7 @@ Ltac rw_local t := try (is_var t; match goal with H : t = _ |- _ => rewrite H en
 Lemma div0 s : 0 / s = 0. Proof. unfold Rdiv. apply Rmult_0_l. Qed.
 (* e / s = 0 when the sum of squares S containing e*e vanishes *)
 Ltac zero_comp Z := first [ reflexivity | apply div0 | match goal with |- ?n / _ = 0 => assert (Hn : n = 0) by nra; rewrite Hn; apply div0 end ].
-Ltac leaf0 U := idtac;
+Ltac leaf0_base U := idtac;
   lazymatch goal with
   | |- unit_or_degenerate (Raise _) => exact I
   | |- unit_or_degenerate (Val []) => exact I
@@ -191,4 +191,20 @@ Ltac leaf0 U := idtac;
       end
   end.
 
+(* a leaf that is the NEGATION of such a vector (sign canonicalisation `-q if q[0] < 0 else q`): a negated unit quaternion is
+   unit, and -0 = 0 for the degenerate leaf.  The negations may be literal or let-bound (v = - v'). *)
+Lemma uod_neg a b c d : unit_or_degenerate (Val [a; b; c; d]) -> unit_or_degenerate (Val [- a; - b; - c; - d]).
+Proof.
+  unfold unit_or_degenerate. cbv [qnorm2 e List.nth]. intros [H|(Ha & Hb & Hc & Hd)].
+  - left. rewrite <- H. ring.
+  - right. rewrite Ha, Hb, Hc, Hd. repeat split; ring.
+Qed.
+Ltac rw_neg t := try (is_var t; match goal with H : t = - _ |- _ => rewrite H end).
+Ltac neg_leaf := idtac;
+  lazymatch goal with
+  | |- unit_or_degenerate (Val [?a; ?b; ?c; ?d]) =>
+      rw_neg a; rw_neg b; rw_neg c; rw_neg d;
+      lazymatch goal with |- unit_or_degenerate (Val [- _; - _; - _; - _]) => apply uod_neg end
+  end.
+Ltac leaf0 U := first [ neg_leaf; leaf0_base U | leaf0_base U ].
 Ltac partial_by_walk f U := cbv delta [f]; cbv beta; walk ltac:(leaf0 U).
